@@ -126,7 +126,14 @@ func (w *dnsWorld) c08AfterOp(op *dnsOp) {
 					for _, rr := range m.Answer {
 						if ttl := time.Duration(rr.Header().Ttl); ttl > remaining+15+1 {
 							cls := ""
-							if e.mixedTTL(w) {
+							if fx, isFixed := w.cfg.fixed[dnsAllNames[op.name]]; isFixed && caseCls == "" {
+								if od, ok2 := e.originalDeadline(); ok2 && time.Duration(fx)*time.Second < od-e.insertedAt {
+									if ro := (od - op.start + time.Second - 1) / time.Second; ttl <= ro+15+1 {
+										cls = "@original-ttl-shown-for-a-fixed-ttl-name"
+									}
+								}
+							}
+							if e.mixedTTL(w) && cls == "" {
 								if rf := (e.deadlineByFirstRecord() - op.start + time.Second - 1) / time.Second; ttl <= rf+15+1 {
 									cls = "@first-record-ttl-used"
 								}
@@ -330,7 +337,9 @@ func dnsScenarioC08(w *dnsWorld) {
 	}
 	if T.Chance(1, 3) {
 		// fixed_domain_ttl for one name (shorter or longer than the answers' own TTL)
-		w.cfg.fixed[dnsAllNames[w.names[0]]] = []int{5, 300}[T.Choose(2)]
+		// 5 s: shorter than every upstream TTL but the smallest; 60 s: shorter than the 120 s
+		// answers (and long enough for the packed reply to leave its 15 s tolerance), longer than the rest
+		w.cfg.fixed[dnsAllNames[w.names[0]]] = []int{5, 60}[T.Choose(2)]
 		w.plane.dnsFixedDomainTtl = w.cfg.fixed
 		if err := w.ctl.TryUpdateRuntime(w.controllerOption(), w.plane.dnsRouting); err != nil {
 			s.Failf("harness-dns", "%v", err)
@@ -355,6 +364,21 @@ func dnsScenarioC08(w *dnsWorld) {
 				op.name, op.qtype = e.key.name, e.key.qtype
 			} else {
 				op.name, op.qtype = w.names[T.Choose(len(w.names))], dnsQtypes[T.Pick(3, 2, 1)]
+			}
+			if op.qtype == dnsmessage.TypeTXT {
+				// a third of the "other type" questions ask SVCB (64), a third HTTPS (65) — derived
+				// from the op number, no extra draw; a name cached under one of the two is asked
+				// for under the other one
+				switch {
+				case w.track.entry(dnsKey{name: op.name, qtype: dnsmessage.TypeSVCB, scope: w.keyOf(op.name, dnsmessage.TypeSVCB).scope}) != nil:
+					op.qtype = dnsmessage.TypeHTTPS
+				case w.track.entry(dnsKey{name: op.name, qtype: dnsmessage.TypeHTTPS, scope: w.keyOf(op.name, dnsmessage.TypeHTTPS).scope}) != nil:
+					op.qtype = dnsmessage.TypeSVCB
+				case op.idx%3 == 1:
+					op.qtype = dnsmessage.TypeSVCB
+				case op.idx%3 == 2:
+					op.qtype = dnsmessage.TypeHTTPS
+				}
 			}
 			op.qname = w.wireName(op.name, T.Pick(4, 1, 1))
 			ops = append(ops, op)
